@@ -3,7 +3,7 @@ import os, re, subprocess
 from . import core
 
 
-def replay(exe, steps, workdir, timeout=120):
+def replay(exe, steps, workdir, timeout=40):
     os.makedirs(workdir, exist_ok=True)
     path = os.path.join(workdir, "prog_%d.txt" % os.getpid())
     with open(path, "w") as f:
